@@ -158,48 +158,95 @@ func (v *verif) versionConfined(kinds map[string][]access, valRole func(ast.Expr
 }
 
 // shiftApplied: the constant left shift applied to the byte e before it is
-// combined with the other version byte.
+// combined with the other version byte. A byte that is also moved to the right
+// is not "assembled" in this sense (see placement).
 func (v *verif) shiftApplied(e ast.Expr) (int64, bool) {
+	k, lost, _, ok := v.placement(e)
+	if lost != 0 {
+		return 0, false
+	}
+	return k, ok
+}
+
+// placement follows the byte e up to the operator that combines it with the
+// other pieces of an integer (| + ^) and says where it lands: the value that
+// reaches the combining operator is (e >> lost) << k. Left moves are `<< c` and
+// `* 2^c`, right moves `>> c` and `/ 2^c` (the byte is unsigned, so the quotient
+// is the shift); conversions are looked through. A right move by more than the
+// left moves before it drops that many low bits of the byte for good: lost > 0
+// means the byte does not contribute all of its bits, whatever follows. right is
+// the first right-moving operator seen (for the report). Anything else on the
+// way (a mask, a call, a variable holding the byte) is not a placement: !ok.
+func (v *verif) placement(e ast.Expr) (k, lost int64, right *ast.BinaryExpr, ok bool) {
 	path := core.PathTo(v.fn.Decl.Body, e)
-	k := int64(0)
+	pow2 := func(x ast.Expr) (int64, bool) {
+		m, isC := core.IntConst(v.info, x)
+		if !isC || m <= 0 || m&(m-1) != 0 {
+			return 0, false
+		}
+		n := int64(0)
+		for ; m > 1; m >>= 1 {
+			n++
+		}
+		return n, true
+	}
+	down := func(x *ast.BinaryExpr, s int64) {
+		if s > k {
+			lost += s - k
+			k = 0
+			if right == nil {
+				right = x
+			}
+		} else {
+			k -= s
+		}
+	}
 	for i := len(path) - 2; i >= 0; i-- {
 		child := path[i+1]
 		switch x := path[i].(type) {
 		case *ast.ParenExpr:
 		case *ast.CallExpr:
-			if tv, ok := v.info.Types[x.Fun]; !ok || !tv.IsType() {
-				return 0, false
+			if tv, isT := v.info.Types[x.Fun]; !isT || !tv.IsType() {
+				return 0, 0, nil, false
 			}
 		case *ast.BinaryExpr:
 			switch x.Op {
-			case token.SHL:
-				s, ok := core.IntConst(v.info, x.Y)
-				if !ok || x.X != child {
-					return 0, false
+			case token.SHL, token.SHR:
+				s, isC := core.IntConst(v.info, x.Y)
+				if !isC || s < 0 || x.X != child {
+					return 0, 0, nil, false
 				}
-				k += s
+				if x.Op == token.SHL {
+					k += s
+				} else {
+					down(x, s)
+				}
 			case token.MUL: // x * 256 is x << 8
 				other := x.Y
 				if x.Y == child {
 					other = x.X
 				}
-				m, ok := core.IntConst(v.info, other)
-				if !ok || m <= 0 || m&(m-1) != 0 {
-					return 0, false
+				s, isP := pow2(other)
+				if !isP {
+					return 0, 0, nil, false
 				}
-				for ; m > 1; m >>= 1 {
-					k++
+				k += s
+			case token.QUO: // x / 256 is x >> 8 for the unsigned byte
+				s, isP := pow2(x.Y)
+				if !isP || x.X != child {
+					return 0, 0, nil, false
 				}
+				down(x, s)
 			case token.OR, token.ADD, token.XOR:
-				return k, true
+				return k, lost, right, true
 			default:
-				return 0, false
+				return 0, 0, nil, false
 			}
 		default:
-			return 0, false
+			return 0, 0, nil, false
 		}
 	}
-	return 0, false
+	return 0, 0, nil, false
 }
 
 // hashObject: call is h.Write(x) on a local h that holds a fresh digest from a
